@@ -9,7 +9,7 @@ def dupVars : List VarDef → List Name → List RErr
     (if seen.count v.var = 1 then [errAt (str "There can be only one variable named \"$" ++ v.var ++ str "\".") v.pos] else [])
       ++ dupVars rest (v.var :: seen)
 
-def uniqueVariableNamesStep (_ : Schema) (_ : QueryDoc) (e : Event) : List RErr :=
+def uniqueVariableNamesStep (_ : SV) (_ : QueryDoc) (e : Event) : List RErr :=
   match e.p with
   | .operation op _ => dupVars op.vars []
   | _ => []
